@@ -19,7 +19,29 @@ import logging
 logging.disable(logging.WARNING)
 
 
+def replay(path):
+    """Re-run the owning check with the recorded seed and tier and report whether the recorded case diverges again."""
+    import json
+    from harness import core
+    rec = json.load(open(path))
+    pid, seed, tier = rec["property"], int(rec.get("seed", 0)), rec.get("tier", "quick")
+    print("replaying %s: property=%s module=%s kind=%s seed=%d tier=%s" % (path, pid, rec["module"], rec["kind"], seed, tier))
+    print("recorded abstract arguments: %s" % json.dumps(rec["args"])[:600])
+    mod = importlib.import_module("harness.checks.%s" % pid.lower())
+    ctx = core.Ctx(pid, tier, seed, keep_replays=True)
+    mod.run(ctx)
+    again = [v for v in ctx.violations if v["module"] == rec["module"] and v["kind"] == rec["kind"] and v["args"] == rec["args"]]
+    ctx.finish()
+    if again:
+        print("REPRODUCED: the recorded case diverges again (%d time(s))" % len(again))
+        return 1
+    print("NOT REPRODUCED: the recorded case does not diverge on the current tree")
+    return 0
+
+
 def main():
+    if len(sys.argv) >= 3 and sys.argv[1] == "replay":
+        return replay(sys.argv[2])
     ap = argparse.ArgumentParser()
     ap.add_argument("prop")
     ap.add_argument("--tier", default=os.environ.get("VERIF_TIER", "quick"), choices=["quick", "thorough"])
